@@ -5,4 +5,5 @@ import "verif/harness/absast"
 func init() {
 	commands["ast-probe"] = absast.Probe
 	commands["ast-batch"] = absast.Batch
+	commands["compile-batch"] = absast.CompileBatch
 }
